@@ -354,11 +354,11 @@ class Run:
         try:
             self.phase[:] = ["entering", bid]
             if kind == "ascope":
-                cm = pre["cm"] if pre else ctx.scope(f"b{bid}", *states, disposables=disp_arg(doubles, b.get("disp_form")))
+                cm = pre["cm"] if pre else ctx.scope(f"b{bid}" + self.program.get("scope_name_suffix", ""), *states, disposables=disp_arg(doubles, b.get("disp_form")))
                 async with cm:
                     await self.body(b, [*env, level], bid)
             elif kind == "sscope":
-                with (pre["cm"] if pre else ctx.scope(f"b{bid}", *states)):
+                with (pre["cm"] if pre else ctx.scope(f"b{bid}" + self.program.get("scope_name_suffix", ""), *states)):
                     await self.body(b, [*env, level], owner)
             else:
                 with (pre["cm"] if pre else ctx.updated(*states)):
